@@ -203,6 +203,7 @@ func (l *Listener) Close() error {
 	for _, c := range l.n.conns {
 		if c.Accepted == l && c.SrvRecvAtLnClose < 0 {
 			c.SrvRecvAtLnClose = c.Srv.RecvTotal
+			c.LnCloseAt = l.n.C.Now()
 		}
 	}
 	var dropped []*End
@@ -305,6 +306,8 @@ type Conn struct {
 	// side when the listener that accepted this connection was closed
 	// (-1: that listener is still open or the connection was never accepted).
 	SrvRecvAtLnClose int
+	AcceptedAt       time.Duration // simulated time of the accept
+	LnCloseAt        time.Duration // simulated time at which SrvRecvAtLnClose was taken
 }
 
 // Reset aborts the connection in both directions (RST).
@@ -713,6 +716,7 @@ func (n *Net) doAccept(s *Socket, l *Listener) {
 	ch := l.waiter[0]
 	l.waiter = l.waiter[1:]
 	e.conn.Accepted = l
+	e.conn.AcceptedAt = l.n.C.Now()
 	n.C.Logf("net: conn%d accepted by L(%s)", e.conn.ID, l.ID)
 	n.mu.Unlock()
 	ch <- acceptResult{end: e}
